@@ -3,6 +3,7 @@ package main
 import (
 	"fmt"
 	"go/types"
+	"sort"
 	"strings"
 
 	"golang.org/x/tools/go/ssa"
@@ -179,6 +180,7 @@ func checkC07(c *Ctx) {
 	c.Clause("the function handed to Execute can report failure (a non-nil error) for failed proxied requests; panics reach afterRequest(false) and are re-raised")
 	c.Clause("handleRequest returns nil to Execute only on paths on which a backend answered below 500: the 503 'no healthy backend' and every failed proxied request return an error, so a half-open trial that reached no backend is no success")
 	c.Clause("on the rejecting edges of beforeRequest the function handed to Execute is not called (no backend is contacted)")
+	c.Clause("each breaker setting (thresholds, interval, timeout, trial budget) is computed from the configuration field of the same meaning and from no other")
 	c.NotDecided("bounded event histories against a reference model; wall-clock behaviour; fairness between concurrent callers")
 
 	lockDiscipline(c, func(key string) bool { return strings.HasPrefix(key, cbT) })
@@ -587,6 +589,7 @@ func c07Wiring(c *Ctx) {
 
 	// the status the breaker's closure judges is the final one the backend wrote (shared with C04/C13)
 	c.statusCaptured()
+	c.breakerSettingsFromConfig()
 
 	// failures are reported: the function handed to Execute can return a non-nil error
 	rule, construct := "failures-reported", "loadbalancer.(*LoadBalancer).ServeHTTP/Execute-argument"
@@ -644,6 +647,51 @@ func c07Wiring(c *Ctx) {
 	c.Check(unproxied == 0, "success-means-backend-answered", construct, p.InstrPos(site),
 		"every path that reports success to the breaker has proxied the request",
 		fmt.Sprintf("%d path(s) of the function handed to Execute return nil without having proxied the request (the 503 \"no healthy backend\" answer): in half-open state such a request spends a trial and counts as a trial success, so with every backend ejected the breaker closes after success_threshold requests that contacted no backend at all", unproxied))
+	// … and a proxied request is reported as a success only when the captured status was found below
+	// 500: a path that took the "status ≥ 500" edge and still returns nil (whatever further condition
+	// excused it — the breaker has no neutral outcome, nil *is* a success) lets a failed trial close the
+	// breaker
+	failedAsSuccess, unjudged := 0, 0
+	for _, t := range ts {
+		if !(t.Exit == ExitNormal && t.Has("proxy") && len(t.Ret) == 1 && t.Ret[0].K == ANil) {
+			continue
+		}
+		sawFailed, sawOK := false, false
+		for _, it := range t.Items {
+			if _, isIf := it.Instr.(*ssa.If); !isIf {
+				continue
+			}
+			// what decides the value returned is tested before the return; the deferred accounting, which
+			// looks at the status again, runs afterwards
+			inDeferred := false
+			for fr := it.Frame; fr != nil; fr = fr.Parent {
+				if _, isDefer := fr.Site.(*ssa.Defer); isDefer {
+					inDeferred = true
+				}
+			}
+			if inDeferred {
+				continue
+			}
+			r := c.condRel(it)
+			if !r.OK || r.Pred != "" || r.Y != "" || !strings.Contains(r.X, "statusCode") {
+				continue
+			}
+			if r.Lo >= 500 && r.Hi == posInf {
+				sawFailed = true
+			}
+			if r.Lo == negInf && r.Hi <= 499 {
+				sawOK = true
+			}
+		}
+		if sawFailed {
+			failedAsSuccess++
+		} else if !sawOK {
+			unjudged++
+		}
+	}
+	c.Check(failedAsSuccess == 0 && unjudged == 0, "success-means-backend-answered", construct+"/proxied", p.InstrPos(site),
+		"a proxied request is reported as a success only on the status < 500 edge",
+		fmt.Sprintf("%d path(s) report a proxied request whose status was found ≥ 500 to the breaker as a success (nil), %d without having compared the status: the breaker has no neutral outcome, so a failed half-open trial excused for any reason (the client went away, a retry is pending) counts towards success_threshold and closes the breaker", failedAsSuccess, unjudged))
 	c.Check(nonNil > 0, rule, construct, p.InstrPos(site),
 		fmt.Sprintf("%d of %d paths through the proxied call return a possibly non-nil error to the breaker", nonNil, len(ts)),
 		"every path of the function handed to Execute returns the constant nil after proxying: 5xx and unreachable backends are never counted as failures, so the breaker can only trip on panics",
@@ -666,7 +714,9 @@ func checkC08(c *Ctx) {
 	c.Clause("every lock of the breaker is released on every exit of every method (also on early returns of a re-check under the write lock); every admitted trial reports an outcome, judged against the state current at the report")
 	c.NotDecided("the time bound 'timeout plus a bounded number of successes'; reachability over bounded histories")
 
+	c.Clause("each breaker setting is computed from the configuration field of the same meaning and from no other (success_threshold is not filled from failure_threshold)")
 	lockOrder(c)
+	c.breakerSettingsFromConfig()
 	// no path of a breaker function returns with the breaker's lock still held (every later Execute,
 	// State and Counts call would block for ever)
 	lockPairing(c, func(fn *ssa.Function) bool {
@@ -973,4 +1023,130 @@ func (c *Ctx) admissionRule(k cbConsts, exec *ssa.Function) {
 			}
 			return ""
 		})
+}
+
+// breakerSettingsFromConfig: the thresholds the properties speak of are the *configured* ones.  Every
+// field of circuitbreaker.Settings that Helios fills from the configuration must be computed from the
+// configuration field of the same meaning and from no other: success_threshold filled from
+// failure_threshold (a slip in a rewritten struct literal) passes every test that uses equal values and
+// makes an accepted configuration (failure 5, success 1, max_requests 1) refuse traffic for ever.
+func (c *Ctx) breakerSettingsFromConfig() {
+	p := c.P
+	want := map[string]string{
+		"MaxRequests":      "MaxRequests",
+		"FailureThreshold": "FailureThreshold",
+		"SuccessThreshold": "SuccessThreshold",
+		"Interval":         "IntervalSeconds",
+		"Timeout":          "TimeoutSeconds",
+	}
+	// configuration fields a value is computed from
+	var origins func(v ssa.Value, seen map[ssa.Value]bool, out map[string]bool, d int)
+	origins = func(v ssa.Value, seen map[ssa.Value]bool, out map[string]bool, d int) {
+		if v == nil || seen[v] || d > 14 {
+			return
+		}
+		seen[v] = true
+		switch x := v.(type) {
+		case *ssa.UnOp:
+			if fa, ok := x.X.(*ssa.FieldAddr); ok {
+				if fr, ok := fieldRefOf(fa); ok && fr.Struct != nil && QualType(fr.Struct) == "config.CircuitBreakerConfig" {
+					out[fr.Name] = true
+					return
+				}
+			}
+			if a, ok := x.X.(*ssa.Alloc); ok && a.Referrers() != nil {
+				for _, r := range *a.Referrers() {
+					if st, ok := r.(*ssa.Store); ok && st.Addr == ssa.Value(a) {
+						origins(st.Val, seen, out, d+1)
+					}
+				}
+			}
+			origins(x.X, seen, out, d+1)
+		case *ssa.Field:
+			if fr, ok := fieldRefOf(x); ok && fr.Struct != nil && QualType(fr.Struct) == "config.CircuitBreakerConfig" {
+				out[fr.Name] = true
+				return
+			}
+		case *ssa.Convert:
+			origins(x.X, seen, out, d+1)
+		case *ssa.ChangeType:
+			origins(x.X, seen, out, d+1)
+		case *ssa.BinOp:
+			origins(x.X, seen, out, d+1)
+			origins(x.Y, seen, out, d+1)
+		case *ssa.Phi:
+			for _, e := range x.Edges {
+				origins(e, seen, out, d+1)
+			}
+		case *ssa.Extract:
+			origins(x.Tuple, seen, out, d+1)
+		case *ssa.Call:
+			// a conversion helper (saturating cast, seconds → duration): what it is given
+			for _, a := range x.Call.Args {
+				origins(a, seen, out, d+1)
+			}
+		}
+	}
+	got := map[string][]string{} // settings field → problems
+	seenField := map[string]bool{}
+	pos := map[string]string{}
+	for _, fn := range p.Funcs {
+		if !p.InScope(fn) {
+			continue
+		}
+		instrsOf(fn, func(in ssa.Instruction) {
+			st, ok := in.(*ssa.Store)
+			if !ok {
+				return
+			}
+			fa, ok := st.Addr.(*ssa.FieldAddr)
+			if !ok {
+				return
+			}
+			fr, ok := fieldRefOf(fa)
+			if !ok || fr.Struct == nil || QualType(fr.Struct) != "circuitbreaker.Settings" {
+				return
+			}
+			exp, tracked := want[fr.Name]
+			if !tracked {
+				return
+			}
+			from := map[string]bool{}
+			origins(st.Val, map[ssa.Value]bool{}, from, 0)
+			if len(from) == 0 {
+				return // a constant default
+			}
+			if pos[fr.Name] == "" {
+				pos[fr.Name] = p.InstrPos(st)
+			}
+			for f := range from {
+				if f == exp {
+					seenField[fr.Name] = true
+				} else {
+					got[fr.Name] = append(got[fr.Name], fmt.Sprintf("%s: Settings.%s is computed from the configuration's %s (expected %s) in %s", p.InstrPos(st), fr.Name, f, exp, p.FuncKey(fn)))
+				}
+			}
+		})
+	}
+	var names []string
+	for k := range want {
+		names = append(names, k)
+	}
+	sort.Strings(names)
+	n := 0
+	for _, f := range names {
+		construct := "circuitbreaker.Settings." + f
+		switch {
+		case len(got[f]) > 0:
+			c.Fail("breaker-settings-from-config", construct, pos[f], got[f][0], got[f]...)
+			n++
+		case seenField[f]:
+			c.Pass("breaker-settings-from-config", construct, pos[f], "filled from CircuitBreakerConfig."+want[f]+" and from no other configuration field")
+			n++
+		default:
+			c.Fail("breaker-settings-from-config", construct, "-", "no store fills Settings."+f+" from CircuitBreakerConfig."+want[f]+": the configured value is parsed and validated but not what the breaker runs with")
+			n++
+		}
+	}
+	c.Floor("breaker-settings-from-config", n, 5, "breaker settings")
 }
